@@ -806,3 +806,83 @@ def oracle_memo(src, ops, tail):
         if op.nodes:
             prev_nodes = op.nodes
     return None
+
+
+# ---------------------------------------------------------------- C14: expert nodes
+def oracle_expert(src, ops, tail):
+    """C14 on a trace with dumps: no panic; observed values equal the reference (for the callback-fed
+    flavour this means every change callback was delivered with the child's current value before the
+    recompute); an expert node is invalid only if one of the dependencies it had at that point is
+    invalid (or it was invalidated explicitly); make_stale from a child forces one recompute, and no
+    stabilise runs the recompute function of one node twice."""
+    why = oracle_no_panic(src, ops, tail)
+    if why:
+        return why
+    why = oracle_values(src, ops, tail, check_frame=False)
+    if why:
+        return why
+    explicit = any("invalidate:" in l or l.startswith("invalidateexpert") for l in src)
+    for op in ops:
+        if op.idx >= len(src):
+            break
+        runs = {}
+        for e in op.events:
+            if e.startswith("exrun "):
+                n = int(e.split()[1])
+                runs[n] = runs.get(n, 0) + 1
+                if runs[n] > 1:
+                    return f"op {op.idx} `{src[op.idx]}`: the recompute function of expert node {n} ran {runs[n]} times in one stabilise"
+        # make_stale from a child's function: the node recomputes in that stabilise (if it is needed and valid)
+        if src[op.idx] == "stabilise" and op.nodes:
+            for e in op.events:
+                if not e.startswith("inv "):
+                    continue
+                n = int(e.split()[1])
+                # which source line created node n? handles are in creation order of `node` results
+                line = node_source(src, ops, n)
+                if line is None:
+                    continue
+                for m in _re.finditer(r"invalidate:(\d+)", line):
+                    en = handle_rank(src, ops, int(m.group(1)))
+                    x = op.nodes.get(en) if en is not None else None
+                    if x is not None and x["valid"]:
+                        return f"op {op.idx}: node {n} invalidated expert node {en}, which is still valid after the stabilise"
+                    for r2, y in op.nodes.items():
+                        if y is not None and y["valid"] and en in y["children"] and (y["parents"] or y["obs"] > 0):
+                            return (f"op {op.idx}: expert node {en} was invalidated but its needed dependant {r2} is still valid")
+                for m in _re.finditer(r"makestale:(\d+)", line):
+                    en = handle_rank(src, ops, int(m.group(1)))
+                    x = op.nodes.get(en) if en is not None else None
+                    if x is not None and x["valid"] and (x["parents"] or x["obs"] > 0) and runs.get(en, 0) != 1:
+                        return (f"op {op.idx}: node {n} called make_stale on expert node {en}, which is needed and valid, "
+                                f"but its recompute function ran {runs.get(en, 0)} times")
+        if not explicit:
+            for r, x in op.nodes.items():
+                if x is None or x["kind"] != "Expert" or x["valid"]:
+                    continue
+                kids = x["children"]
+                if not any(op.nodes.get(k) is None or not op.nodes[k]["valid"] for k in kids):
+                    return (f"op {op.idx} `{src[op.idx]}`: expert node {r} is invalid although all the dependencies it has "
+                            f"({kids}) are valid and nothing invalidated it explicitly")
+    return None
+
+
+import re as _re
+
+
+def handle_rank(src, ops, h):
+    """rank of the node behind node handle h (handles are numbered in the order `node <rank>` results appear)"""
+    k = 0
+    for op in ops:
+        if op.result.startswith("node "):
+            if k == h:
+                return int(op.result.split()[1])
+            k += 1
+    return None
+
+
+def node_source(src, ops, rank):
+    for op in ops:
+        if op.result == f"node {rank}" and op.idx < len(src):
+            return src[op.idx]
+    return None
